@@ -4,7 +4,8 @@ from hypothesis import strategies as st
 
 from vp.framework import Violation
 
-RULE = ("A family = (cycle F/V/W, isotropic or triaxial 1:2:3 medium, "
+RULE = ("A family = (cycle F/V/W, isotropic, triaxial 1:2:3, HTI or VTI "
+        "(factor 2 either way) medium, "
         "frequency or Laplace domain, nu_pre, nu_post in 1..3) plus a "
         "Hypothesis-drawn electric point source (position in the central "
         "40 % of the domain, any azimuth/elevation) and frequency "
@@ -20,7 +21,9 @@ RULE = ("A family = (cycle F/V/W, isotropic or triaxial 1:2:3 medium, "
         "whole draw.")
 ASSUMPTIONS = [
     "absolute caps: table CAPS below = 1.5 x max factor measured over 216 "
-    "family/source draws at 16^3 and 32^3 on the pinned tree",
+    "family/source draws at 16^3 and 32^3 on the pinned tree (isotropic and "
+    "triaxial 1:2:3; the factor-2 HTI/VTI media were measured to converge "
+    "faster than the triaxial one for every nu_pre+nu_post, 168 draws)",
     "h-independence threshold 1.5*rho(16)+0.02 (measured rho(32)/rho(16) "
     "in [0.85, 1.23])",
 ]
@@ -36,10 +39,27 @@ NONCUBIC = [(32, 24, 20), (16, 48, 40), (40, 16, 24), (64, 24, 40),
             (48, 40, 32), (20, 12, 16)]
 
 
-def spec_strategy(big, huge=False):
+MEDIA = {
+    'tri': dict(property_x=1.0, property_y=2.0, property_z=3.0),
+    'HTI': dict(property_x=1.0, property_y=2.0),
+    'HTIi': dict(property_x=2.0, property_y=1.0),
+    'VTI': dict(property_x=1.0, property_z=2.0),
+    'VTIi': dict(property_x=2.0, property_z=1.0),
+}
+
+
+def spec_strategy(big, huge=False, medium=None):
+    fixed = {}
+    if medium is not None:
+        fixed = {'aniso': st.just(medium != 'iso'),
+                 'acase': st.just('tri' if medium == 'iso' else medium)}
     return st.fixed_dictionaries({
         'cycle': st.sampled_from(['F', 'V', 'W']),
         'aniso': st.booleans(),
+        # which mild anisotropy (used if aniso): triaxial 1:2:3, or a factor
+        # two between the horizontal directions (HTI) / horizontal and
+        # vertical (VTI), either way round
+        'acase': st.sampled_from(list(MEDIA)),
         'laplace': st.booleans(),
         'nu': st.tuples(st.integers(1, 3), st.integers(1, 3)).map(list),
         'src': st.tuples(st.floats(0.3, 0.7), st.floats(0.3, 0.7),
@@ -52,14 +72,15 @@ def spec_strategy(big, huge=False):
         # the thorough tier, the two cheapest ones also in the quick tier
         'noncubic': st.sampled_from([None] + list(range(len(NONCUBIC))))
         if huge or big == 'nc' else st.sampled_from([None, 0, 5, 0, 5]),
+        **fixed,
     })
 
 
 def _run(emg3d, spec, shape, h):
     L = [n*h for n in shape]
     grid = emg3d.TensorMesh([np.ones(n)*h for n in shape], origin=(0, 0, 0))
-    model = (emg3d.Model(grid, 1.0, 2.0, 3.0) if spec['aniso']
-             else emg3d.Model(grid, 1.0))
+    model = (emg3d.Model(grid, **MEDIA[spec.get('acase', 'tri')])
+             if spec['aniso'] else emg3d.Model(grid, 1.0))
     s = spec['src']
     coo = (s[0]*L[0], s[1]*L[1], s[2]*L[2], s[3], s[4])
     f = -spec['f'] if spec['laplace'] else spec['f']
@@ -82,7 +103,8 @@ def case_family(spec, rec):
         sizes.append(64)
     if spec['huge']:
         sizes.append(128)
-    fam = (f"{spec['cycle']}:{'tri' if spec['aniso'] else 'iso'}:"
+    fam = (f"{spec['cycle']}:"
+           f"{spec.get('acase', 'tri') if spec['aniso'] else 'iso'}:"
            f"{'s' if spec['laplace'] else 'f'}")
     res = {}
     for n in sizes:
@@ -120,9 +142,11 @@ def case_family(spec, rec):
                             f"{rho:.3f}, {it} cycles; rho(16)={r16:.3f}, "
                             f"cap {cap:.3f}")
     rec.cls(f"cycle={spec['cycle']}", f"aniso={spec['aniso']}",
+            f"medium={spec.get('acase', 'tri') if spec['aniso'] else 'iso'}",
             f"laplace={spec['laplace']}", f"nu_total={nus}",
             f"max_size={max(sizes)}", f"noncubic={nc is not None}")
-    rec.nt([spec['cycle'], spec['aniso'], spec['laplace'], spec['nu'],
+    rec.nt([spec['cycle'], spec['aniso'], spec.get('acase'), spec['laplace'],
+            spec['nu'],
             spec['src'], spec['f'], max(sizes)])
     rec.note({'family': fam, 'nu': spec['nu'],
               'rho': {str(n): round(v[2], 4) for n, v in res.items()},
@@ -137,8 +161,10 @@ SUBS = {'family': case_family, 'family64': case_family,
 def run(ctx):
     ctx.regression(SUBS)
     if ctx.quick:
-        ctx.explore('family', spec_strategy(False), case_family,
-                    ctx.n(10, 10), shrink=False)
+        # every medium in every run: 6 media x 2 families
+        for k, med in enumerate(['iso'] + list(MEDIA)):
+            ctx.explore('family', spec_strategy(False, medium=med),
+                        case_family, ctx.n(2, 2), shrink=False, salt=k)
         ctx.explore('family64', spec_strategy(True), case_family,
                     ctx.n(2, 2), shrink=False)
     else:
